@@ -88,7 +88,7 @@ type Sim struct {
 	Log     []string
 	inAfter bool
 	NOps    int
-	Stats map[string]int
+	Stats   map[string]int
 
 	// Mismatch is called when the mint's verdict differs from the model's.
 	// kind: "accepted" (model expected a refusal for reason) or "rejected"
